@@ -29,6 +29,7 @@ from typing import cast
 import flask
 
 from dashlive.mpeg.dash.profiles import primary_profiles
+from dashlive.server import models
 from dashlive.server.models import Stream
 from dashlive.server.manifests import manifest_map
 from dashlive.server.options.container import OptionsContainer
@@ -93,6 +94,12 @@ class ServeManifest(RequestHandlerBase):
         elif mft.segment_timeline or options.patch:
             options.update(segmentTimeline=True)
         options.remove_unused_parameters(mode)
+        if options.encrypted and not models.MediaFile.search(
+                stream=current_stream, content_type='video', encrypted=True,
+                max_items=1):
+            logging.info('DRM requested for a stream without encrypted video')
+            return flask.make_response(
+                'This stream does not have any encrypted video', 404)
         dash = ManifestContext(
             manifest=mft, options=options, stream=current_stream,
             multi_period=None)
